@@ -14,7 +14,7 @@ from vf import core
 from vf.ref import units as U
 
 ID = 'C20'
-N = {'quick': 200000, 'thorough': 2000000}
+N = {'quick': 150000, 'thorough': 2000000}
 NT_RULE = ('state = (T, P, n) log-uniform in 50-3000 K, 1e-3-1e3 bar, 1e-3-1e3 mol with vdW parameters '
            'a 0.003-3, b 1e-5-2e-4 (or built from Tc 5-1000 K, Pc 1-300 bar), stratified into '
            'sub-/super-critical isotherms; non-trivial = sub-critical state with three real roots or a '
